@@ -153,7 +153,7 @@ def overrides(node):
 
 
 def random_tree(rng):
-    pool = gen.fresh_vars(12)
+    pool = gen.fresh_vars(12) + ['_', '_2', '0', '1', '10', 'é1']    # names a first relabelling ({i}, EDS-style _N) leaves behind
     rng.shuffle(pool)
     consts = rng.sample(CONSTANTS, rng.randint(3, 8))
     concepts = rng.sample(CONCEPTS, rng.randint(1, 5))      # few concepts -> prefix collisions
